@@ -287,6 +287,10 @@ class Evaluator:
             self.depth = getattr(self, 'depth', 0) + 1
             try:
                 v = f(self, n[2], sheet, at)
+            except XlError as e:
+                if getattr(e, 'origin_depth', None) is None:
+                    e.origin_depth = self.depth      # the function (nesting level) whose evaluation produced the error value
+                raise
             finally:
                 self.depth -= 1
             if v is ANY and self.depth > 0:
@@ -431,7 +435,11 @@ def _iferror(ev, a, sh, at):
                 # element-wise (dynamic arrays) or whole-value fallback: the statement speaks of one value
                 raise NoOpinion('IFERROR over an area that holds an error value')
         return v
-    except XlError:
+    except XlError as e:
+        if getattr(e, 'origin_depth', None) is not None and e.origin_depth > getattr(ev, 'depth', 0) + 1:
+            # the error value was produced deeper inside and handed through at least one enclosing FUNCTION before it arrived here:
+            # what that function does with an error value is outside the statements (the library hands error values on as texts)
+            raise NoOpinion('an error value passed through an enclosing function before IFERROR')
         return ev.ev(a[1], sh, at)
 
 
@@ -452,13 +460,13 @@ def _average(ev, a, sh, at):
 @fn('MIN', 1, 254)
 def _min(ev, a, sh, at):
     n = ev.numeric_items(a, sh, at)
-    return min(n) if n else ANY
+    return min(n) if n else 0          # no number among the arguments: 0
 
 
 @fn('MAX', 1, 254)
 def _max(ev, a, sh, at):
     n = ev.numeric_items(a, sh, at)
-    return max(n) if n else ANY
+    return max(n) if n else 0
 
 
 @fn('COUNT', 1, 254)
